@@ -1138,6 +1138,9 @@ fn read_timebase(cur: &mut SourceCursor, song: &mut Song) -> Token {
     if song.timebase <= 48 {
         song.timebase = 48;
     }
+    if song.timebase > 32767 { // the division field of the SMF header is a positive 15-bit number
+        song.timebase = 32767;
+    }
     // a track that still has the default length (a quarter note of the old time base) keeps a quarter note
     for t in song.tracks.iter_mut() {
         if t.length == old_timebase { t.length = song.timebase; }
